@@ -437,6 +437,9 @@ func identExprs(ids []*ast.Ident) []ast.Expr {
 }
 
 func (in *Interp) zeroOf(t types.Type) Value {
+	if isErrorType(t) {
+		return tagV("nil", nil) // the zero error
+	}
 	switch u := t.Underlying().(type) {
 	case *types.Basic:
 		switch {
